@@ -107,8 +107,74 @@ def tree_of(stmts, var='info'):
     return out
 
 
+COND_NODES = {}       # text of a non-mask condition -> its expression node (for evaluation by record_test)
+
+
 def _reads(node):
-    return [('read', c) for c in reads_in(node)]
+    """reads of an expression / simple statement in evaluation order; a conditional expression with reads in its branches is a
+    condition node like an `if`"""
+    out = []
+
+    def go(n):
+        if n is None:
+            return
+        if n.k == 'ConditionalOperator' and (reads_in(n.child('then')) or reads_in(n.child('else'))):
+            go(n.child('cond'))
+            th, el = _reads(n.child('then')), _reads(n.child('else'))
+            m = info_mask(n.child('cond'), 'info')
+            if m is not None:
+                out.append(('mask', m, th, el))
+            else:
+                t = norm(n.child('cond').text())
+                COND_NODES[t] = n.child('cond')
+                out.append(('cond', t, th, el))
+            return
+        if n.k in ('CallExpr',) and n.callee in READ_CODEC:
+            for a in n.args:
+                go(a)
+            out.append(('read', READ_CODEC[n.callee]))
+            return
+        for c in n.c:
+            go(c)
+    go(node)
+    return out
+
+
+def record_test(text, rec, enum_values):
+    """truth of a condition that only compares `record` with OasisRecord enumerators (==, !=, &&, ||, !, named through const
+    bool locals), for the record `rec`; None when it is something else"""
+    from .flow import _strip_casts
+    node = COND_NODES.get(text)
+    if node is None:
+        return None
+
+    def ev(e, depth=0):
+        e = _strip_casts(e)
+        while e is not None and e.k == 'ParenExpr':
+            e = _strip_casts(e.c[0])
+        if e is None or depth > 8:
+            return None
+        if e.k == 'UnaryOperator' and e.op == '!':
+            v = ev(e.child('sub'), depth + 1)
+            return None if v is None else (not v)
+        if e.k == 'BinaryOperator' and e.op in ('&&', '||'):
+            a, b = ev(e.child('lhs'), depth + 1), ev(e.child('rhs'), depth + 1)
+            if a is None or b is None:
+                return None
+            return (a and b) if e.op == '&&' else (a or b)
+        if e.k == 'BinaryOperator' and e.op in ('==', '!='):
+            l, r = _strip_casts(e.child('lhs')), _strip_casts(e.child('rhs'))
+            if r is not None and r.k == 'DeclRefExpr' and r.n == 'record':
+                l, r = r, l
+            if l is not None and l.k == 'DeclRefExpr' and l.n == 'record' and r is not None and r.k == 'DeclRefExpr' and r.dk == 'enum' and 'OasisRecord::' in (r.qn or ''):
+                same = r.qn.split('::')[-1] == rec
+                return same == (e.op == '==')
+            return None
+        if e.k == 'DeclRefExpr' and e.dk == 'local' and (e.t or '').replace('const ', '').strip() == 'bool':
+            d = next((v for v in e.fn.body.walk() if v.k == 'VarDecl' and v.d == e.d and v.child('init') is not None and (v.t or '').startswith('const ')), None)
+            return ev(d.child('init'), depth + 1) if d is not None else None
+        return None
+    return ev(node)
 
 
 def _tree(s, var):
@@ -127,6 +193,7 @@ def _tree(s, var):
         pre = _reads(s.child('cond'))
         if not th and not el:
             return pre
+        COND_NODES[norm(s.child('cond').text())] = s.child('cond')
         return pre + [('cond', norm(s.child('cond').text()), th, el)]
     if s.k in ('ForStmt', 'WhileStmt', 'DoStmt'):
         pre = []
